@@ -362,30 +362,48 @@ def predicates(case, impl):
                 out.append(Failure(clause="profile_bounds", key=f"profile_bounds|{site}|",
                                    detail=f"sample {i}={x} outside [{stop},{start}]"))
                 break
-        # dwell: holds with a temperature distinct from every other plateau
+        # dwell (theorems holdCount_dwell / profile_dwell / segment_slip): consecutive holds at one temperature
+        # form one plateau; a plateau of k holds with total duration D shows c_1+..+c_k hold samples with
+        # d_i - dt < c_i*dt < d_i + dt, followed by the first sample of the next ramp (also at the hold
+        # temperature), plus at most one ramp sample that rounds onto the hold temperature in floating point
+        # (L/dt = 180.00000000000003 gives 181 ramp samples).  Samples are antitone, so equal values are
+        # contiguous and can be counted by value.  A plateau whose end (with the slip of at most 2*dt per
+        # earlier segment) lies inside the sampled horizon must be there in full; a truncated one only obeys
+        # the upper bound.  The plateau at the stop temperature merges with the final one and is not counted.
         holds = case["holds"] or []
-        temps = [h[0] for h in holds] + [start, stop]
-        for th, d in holds:
-            if temps.count(th) != 1:
+        hs = sorted(holds, key=lambda h: -h[0])
+        groups = []  # [temp, total duration, k, program time at which the plateau starts, segments before]
+        tprog, Tprev, nseg = 0.0, start, 0
+        for th, d in hs:
+            tprog += (Tprev - th) / rate
+            nseg += 1
+            if groups and groups[-1][0] == th:
+                groups[-1][1] += d
+                groups[-1][2] += 1
+            else:
+                groups.append([th, d, 1, tprog, nseg])
+            tprog += d
+            Tprev = th
+        horizon = (len(p) - 1) * dt
+        for th, D, k, t0, ns in groups:
+            if th == stop:
                 continue
             m = sum(1 for x in p if x == th)
-            if m == 0 and d <= 2 * dt:
-                continue
-            last = max((i for i, x in enumerate(p) if x == th), default=None)
-            if last is None or last == len(p) - 1:
-                continue  # plateau truncated by t_tot
-            # tolerance: one step for the ramp before the hold and one for the hold
-            # itself (in floating point the last ramp sample can round onto the hold
-            # temperature, e.g. L/dt = 180.00000000000003 gives 181 ramp samples)
-            lo = d - 2 * dt - 1e-9 * max(1, d)
-            hi = d + 2 * dt + 1e-9 * max(1, d)
-            if not (lo <= (m - 1) * dt <= hi):
+            eps = 1e-9 * max(1.0, D, horizon)
+            hi = D + (k + 1) * dt + eps
+            inside = t0 + D + 2 * dt * (ns + k + 1) + dt <= horizon
+            bad = None
+            if (m - 1) * dt > hi:
+                bad = "too long"
+            elif inside and (m == 0 or not (D - k * dt - eps < (m - 1) * dt)):
+                bad = "missing" if m == 0 else "too short"
+            if bad:
                 out.append(Failure(clause="profile_dwell", key=f"profile_dwell|{site}|",
-                                   detail=f"hold {th} for {d}: {m} samples at dt={dt}"))
+                                   detail=f"plateau {th} of {k} hold(s), total {D}: {m} samples at dt={dt} ({bad})"))
                 break
         # tracks the continuous program within one step per program segment
         prog = _program(case)
-        S = 2 * len(holds) + 2
+        S = 2 * len(holds) + 2  # one step per program segment (ramps, holds and the final plateau)
         bound = S * rate * dt * (1 + 1e-9) + tol
         for k, x in enumerate(p):
             if abs(x - prog(k * dt)) > bound:
